@@ -996,6 +996,10 @@ func c13Tamper(c *Ctx, base c13Scn, s c13Sent, st c13Step, runV func(c13Scn, str
 		{"none", nil}, {"only foreign", []string{"Bearer abc"}},
 	} {
 		try("headers: "+g.d, func(t *c13Scn) { t.auths = g.v })
+		try("headers: "+g.d+" (several local names, another default)", func(t *c13Scn) {
+			t.auths = g.v
+			t.def, t.localsOn, t.locals = "first.example", true, []string{"first.example", s.d, "other.example"}
+		})
 		if strings.Contains(g.d, "other key") {
 			try("headers: "+g.d+" (that key is known too)", func(t *c13Scn) {
 				t.auths = g.v
